@@ -13,6 +13,7 @@ LayoutsQ == {
   <<<<"p", "q">>, <<".pad", "0">>, <<"p", "r">>>>,                        \* (the second file is a padding file)
   <<<<"a">>, <<"s", "_pad0">>, <<"s", "b">>, <<"s", "t", "c">>>>,        \* a padding file first in a directory of real files
   <<<<"..", "a">>, <<".", "a">>, <<"a">>>>,                               \* dot components inside the torrent
+  <<<<"a", "x">>, <<"b", "y">>, <<"a", "z">>, <<"top">>>>,               \* the files of a directory are not adjacent in the table
   <<<<"a/b">>, <<"a", "b">>>>,                                            \* a component containing a slash
   <<<<"x y">>>>, <<<<"%41">>>>, <<<<"a?b#c">>>>                           \* also run as single-file torrents of that name
 }
